@@ -246,3 +246,17 @@ def pyr_shapes_axes(size, Ls, mode, J):
         return (ks[-1],), [(k,) for k in ks]
     kh, kw = per_axis
     return (kh[-1], kw[-1]), [(3, a, b) for a, b in zip(kh, kw)]
+
+
+def other_precision_call(m, shape, dtype, inverse_pyramid=None):
+    """History step: call module m once with an input of the OTHER precision. The library may reject it (it does on
+    the pinned tree) or compute; the outcome is ignored - what matters is that nothing is left behind."""
+    other = torch.float32 if dtype == torch.float64 else torch.float64
+    try:
+        with torch.no_grad():
+            if inverse_pyramid is None:
+                m(torch.ones(shape, dtype=other))
+            else:
+                m(inverse_pyramid(other))
+    except Exception:       # noqa
+        pass
